@@ -40,6 +40,15 @@ func hasFault(log []*Call) bool {
 	return false
 }
 
+func ownedByKind(p *corev1.Pod, kind, name string) bool {
+	for _, r := range p.OwnerReferences {
+		if r.Kind == kind && r.Name == name {
+			return true
+		}
+	}
+	return false
+}
+
 // lessKeep: scheduled first, then older creationTimestamp (ties: either).
 func lessKeep(a, b *corev1.Pod) bool {
 	as, bs := a.Spec.NodeName != "", b.Spec.NodeName != ""
@@ -98,9 +107,16 @@ func BuildSyncView(pre *State, log []*Call, ns, name string) *SyncView {
 		v.Nodes[n.Name] = n
 		v.Eligible[n.Name] = Eligible(n, &rs.Spec.Template)
 	}
+	// during a declared migration the pods controlled by the named old DaemonSet (which must exist) stand for the
+	// previous version on their nodes
+	oldDS := ""
+	if d, ok := eds.Annotations[v1.ExtendedDaemonSetOldDaemonsetAnnotationKey]; ok && pre.Has("DaemonSet", ns, d) {
+		oldDS = d
+	}
 	for _, p := range pre.Pods() {
 		v.PodByKey[nn(p)] = p
-		if !OwnedBy(p, ns, eds.Name) || p.Status.Phase == corev1.PodUnknown {
+		migrated := oldDS != "" && p.Namespace == ns && ownedByKind(p, "DaemonSet", oldDS)
+		if !(OwnedBy(p, ns, eds.Name) || migrated) || p.Status.Phase == corev1.PodUnknown {
 			continue
 		}
 		n := TargetNode(p)
